@@ -10,7 +10,7 @@ use crate::{
         par_filtermap_fil::ParFilterMapFilter, par_flatmap_fil::ParFlatMapFilter, par_map::ParMap,
         par_map_fil::ParMapFilter,
     },
-    ParCollectInto,
+    Par, ParCollectInto,
 };
 use orx_concurrent_bag::ConcurrentBag;
 use orx_concurrent_ordered_bag::ConcurrentOrderedBag;
@@ -26,6 +26,13 @@ impl<O: Send + Sync, G: GrowthWithConstantTimeAccess> ParCollectIntoCore<O> for 
         I: orx_concurrent_iter::ConcurrentIter,
         M: Fn(I::Item) -> O + Send + Sync + Clone,
     {
+        if par_map.params().is_sequential() {
+            // nothing is written concurrently in sequential mode: extend in place rather than
+            // reserving concurrent capacity that the computation will never use
+            let (_, iter, map) = par_map.destruct();
+            return self.seq_extend(iter.into_seq_iter().map(map));
+        }
+
         match par_map.iter_len() {
             None => self.reserve_maximum_concurrent_capacity(1 << 32),
             Some(len) => self.reserve_maximum_concurrent_capacity(self.len() + len),
